@@ -68,3 +68,19 @@ pub(crate) fn note_stack(len: usize) {
         }
     });
 }
+
+/// Table access for exhaustive sweeps (C10/C11): the engine's own canonicalisation of a code point.
+pub fn fold_code_point(c: u32, unicode: bool) -> u32 {
+    crate::unicode::fold_code_point(c, unicode)
+}
+
+/// The strings the engine holds for a property of strings (None if `name` is not one).
+pub fn string_property_strings(name: &str) -> Option<Vec<Vec<u32>>> {
+    let p = crate::unicodetables::unicode_string_property_from_str(name)?;
+    Some(
+        crate::unicodetables::string_property_sets(&p)
+            .iter()
+            .map(|s| s.to_vec())
+            .collect(),
+    )
+}
